@@ -62,6 +62,9 @@ type Endpoint struct {
 	ebuf bytes.Buffer
 
 	In, Out int64 // atomic plaintext byte counters
+	// GiveUp, if set, is polled about once a second by Wait: when it reports true the wait ends
+	// unsuccessfully at once (the session has wedged; what is awaited cannot happen any more).
+	GiveUp  func() bool
 	paused  int32 // atomic: the reader stops reading (a peer that no longer reads)
 	stopped int32 // atomic: session over, a paused reader gives up
 
@@ -228,19 +231,30 @@ const WaitWatchdog = 20 * time.Second
 // Wait polls until fn holds. It returns false when the watchdog fires or the
 // reader has ended without fn holding.
 func (e *Endpoint) Wait(fn func(o *Obs) bool) bool {
-	return WaitFor(func() bool { return e.Look(fn) })
+	return WaitForOr(func() bool { return e.Look(fn) }, e.GiveUp)
 }
 
 // WaitFor polls an arbitrary condition under the same watchdog.
-func WaitFor(fn func() bool) bool {
+func WaitFor(fn func() bool) bool { return WaitForOr(fn, nil) }
+
+// WaitForOr is WaitFor with a give-up probe polled about once a second.
+func WaitForOr(fn func() bool, giveUp func() bool) bool {
 	start := time.Now()
+	lastProbe := start
 	d := 50 * time.Microsecond
 	for {
 		if fn() {
 			return true
 		}
-		if time.Since(start) > WaitWatchdog {
+		now := time.Now()
+		if now.Sub(start) > WaitWatchdog {
 			return false
+		}
+		if giveUp != nil && now.Sub(lastProbe) > time.Second {
+			if giveUp() {
+				return fn()
+			}
+			lastProbe = time.Now()
 		}
 		time.Sleep(d)
 		if d < 2*time.Millisecond {
@@ -309,14 +323,14 @@ func (e *Endpoint) RawFrame(t http2.FrameType, flags http2.Flags, id uint32, pay
 }
 
 // ReqFields / ResFields are small valid header lists.
-func ReqFields(n int, extra string) []hpack.HeaderField {
-	return []hpack.HeaderField{
+func ReqFields(n int, extra string, more ...hpack.HeaderField) []hpack.HeaderField {
+	return append([]hpack.HeaderField{
 		{Name: ":method", Value: "POST"},
 		{Name: ":scheme", Value: "https"},
 		{Name: ":authority", Value: "c10.example"},
 		{Name: ":path", Value: fmt.Sprintf("/c10/%d", n)},
 		{Name: "x-c10", Value: extra},
-	}
+	}, more...)
 }
 
 func ResFields(extra string) []hpack.HeaderField {
